@@ -30,6 +30,8 @@ static struct { const void* f; int arr; int cur; } fes[64];
 static int nfes = 0;
 static const char* cur_event = NULL;
 static uscxml_ctx ctx;
+static uscxml_ctx* CUR = &ctx;   /* the machine whose callbacks are running (a nested machine while do_invoke drives it) */
+static int depth = 0;
 static int failed_eval = 0;
 
 static ev_t* mkev(const char* n) { ev_t* e = (ev_t*)calloc(1, sizeof(ev_t)); strncpy(e->name, n, 63); return e; }
@@ -45,9 +47,9 @@ static long* var(const char* n, int create) {
 
 static int in_state(const char* id) {
 	size_t i;
-	for (i = 0; i < ctx.machine->nr_states; i++)
-		if (ctx.machine->states[i].name && strcmp(ctx.machine->states[i].name, id) == 0)
-			return BIT_HAS(i, ctx.config) ? 1 : 0;
+	for (i = 0; i < CUR->machine->nr_states; i++)
+		if (CUR->machine->states[i].name && strcmp(CUR->machine->states[i].name, id) == 0)
+			return BIT_HAS(i, CUR->config) ? 1 : 0;
 	return 0;
 }
 
@@ -111,8 +113,8 @@ static long eval(const char* s, int* err) { failed_eval = 0; P = s; long v = exp
 static int err_exec(void) { push(iq, &iqt, "error.execution"); return USCXML_ERR_EXEC_CONTENT; }
 
 /* ---- callbacks ---- */
-static void* dequeue_internal(const uscxml_ctx* c) { if (iqh < iqt) { ev_t* e = iq[iqh++]; printf("E %s\n", e->name); cur_event = e->name; return e; } return NULL; }
-static void* dequeue_external(const uscxml_ctx* c) { if (eqh < eqt) { ev_t* e = eq[eqh++]; printf("E %s\n", e->name); cur_event = e->name; return e; } return NULL; }
+static void* dequeue_internal(const uscxml_ctx* c) { if (iqh < iqt) { ev_t* e = iq[iqh++]; if (!depth) printf("E %s\n", e->name); cur_event = e->name; return e; } return NULL; }
+static void* dequeue_external(const uscxml_ctx* c) { if (eqh < eqt) { ev_t* e = eq[eqh++]; if (!depth) printf("E %s\n", e->name); cur_event = e->name; return e; } return NULL; }
 
 static int tok_match(const char* descs, const char* name) {
 	/* Rec. 3.12.1: token-wise prefix, '*' matches all, trailing .* / . ignored */
@@ -133,6 +135,7 @@ static int raise_done_event(const uscxml_ctx* c, const uscxml_state* s, const us
 	char n[80]; snprintf(n, 80, "done.state.%s", s->name ? s->name : "?"); push(iq, &iqt, n); return USCXML_ERR_OK;
 }
 static int exec_log(const uscxml_ctx* c, const char* label, const char* ex) {
+	if (depth) return USCXML_ERR_OK;   /* nested machines run silently */
 	if (ex && strcmp(ex, "_event.name") == 0) { if (!cur_event) return err_exec(); printf("L %s: \"%s\"\n", label ? label : "", cur_event); }
 	else if (ex) { int err; long v = eval(ex, &err); if (err) return err_exec(); printf("L %s: %ld\n", label ? label : "", v); }
 	else printf("L %s\n", label ? label : "");
@@ -181,7 +184,29 @@ static int exec_script(const uscxml_ctx* c, const char* src, const char* content
 	x = eval(q + 1, &err); if (err) return err_exec();
 	*v = x; return USCXML_ERR_OK;
 }
-static int do_invoke(const uscxml_ctx* c, const uscxml_state* s, const uscxml_elem_invoke* inv, unsigned char uninvoke) { return USCXML_ERR_OK; }
+static void setup(uscxml_ctx* x);
+/* A nested (invoked) machine is driven right here, in a context of its own, with two synthetic events: its behaviour is not compared with
+ * anything, but every array access of the emitted step function runs under the sanitizers with the sizing macros of the whole file. */
+static int do_invoke(const uscxml_ctx* c, const uscxml_state* s, const uscxml_elem_invoke* inv, unsigned char uninvoke) {
+	if (uninvoke || !inv || !inv->machine || depth >= 3) return USCXML_ERR_OK;
+	{
+		int s_iqh = iqh, s_iqt = iqt, s_eqh = eqh, s_eqt = eqt, n = 0, err = USCXML_ERR_OK, fed = 0;
+		uscxml_ctx* parent = CUR; const char* s_ev = cur_event;
+		uscxml_ctx* cc = (uscxml_ctx*)calloc(1, sizeof(uscxml_ctx));
+		cc->machine = inv->machine; setup(cc);
+		iqh = iqt; eqh = eqt; CUR = cc; depth++;
+		while (n++ < 80) {
+			err = uscxml_step(cc);
+			if (err == USCXML_ERR_DONE) break;
+			if (err == USCXML_ERR_IDLE) { if (fed >= 3) break; push(eq, &eqt, fed == 0 ? "e1" : fed == 1 ? "e2" : "e1"); fed++; }
+		}
+		printf("K %d %u %u %d %d\n", depth, (unsigned)cc->machine->nr_states, (unsigned)cc->machine->nr_transitions, n, err);
+		depth--; CUR = parent; cur_event = s_ev;
+		iqh = s_iqh; iqt = s_iqt; eqh = s_eqh; eqt = s_eqt;
+		free(cc);
+	}
+	return USCXML_ERR_OK;
+}
 static int fe_slot(const void* f) { int i; for (i = 0; i < nfes; i++) if (fes[i].f == f) return i; if (nfes < 64) { fes[nfes].f = f; return nfes++; } return -1; }
 static int fe_init(const uscxml_ctx* c, const uscxml_elem_foreach* f) {
 	int i, k = fe_slot(f);
@@ -206,18 +231,22 @@ static void print_set(const char* tag, const unsigned char* set) {
 	printf("\n");
 }
 
+static void setup(uscxml_ctx* x) {
+	x->dequeue_internal = dequeue_internal; x->dequeue_external = dequeue_external;
+	x->is_matched = is_matched; x->is_true = is_true; x->raise_done_event = raise_done_event;
+	x->exec_content_log = exec_log; x->exec_content_raise = exec_raise; x->exec_content_send = exec_send;
+	x->exec_content_assign = exec_assign; x->exec_content_init = exec_init; x->exec_content_cancel = exec_cancel;
+	x->exec_content_script = exec_script; x->invoke = do_invoke;
+	x->exec_content_foreach_init = fe_init; x->exec_content_foreach_next = fe_next; x->exec_content_foreach_done = fe_done;
+}
+
 int main(int argc, char** argv) {
 	int a = 1, pend = 0, guard = 0, err, k;
 	unsigned char before[sizeof(ctx.config)];
 	if (argc > 2 && strcmp(argv[1], "-p") == 0) { pend = atoi(argv[2]); a = 3; }
 	memset(&ctx, 0, sizeof(ctx));
 	ctx.machine = &USCXML_MACHINE;
-	ctx.dequeue_internal = dequeue_internal; ctx.dequeue_external = dequeue_external;
-	ctx.is_matched = is_matched; ctx.is_true = is_true; ctx.raise_done_event = raise_done_event;
-	ctx.exec_content_log = exec_log; ctx.exec_content_raise = exec_raise; ctx.exec_content_send = exec_send;
-	ctx.exec_content_assign = exec_assign; ctx.exec_content_init = exec_init; ctx.exec_content_cancel = exec_cancel;
-	ctx.exec_content_script = exec_script; ctx.invoke = do_invoke;
-	ctx.exec_content_foreach_init = fe_init; ctx.exec_content_foreach_next = fe_next; ctx.exec_content_foreach_done = fe_done;
+	setup(&ctx);
 	printf("N %u %u %u %u\n", (unsigned)ctx.machine->nr_states, (unsigned)ctx.machine->nr_transitions, (unsigned)USCXML_MAX_NR_STATES_BYTES, (unsigned)USCXML_MAX_NR_TRANS_BYTES);
 	while (guard++ < 600) {
 		unsigned char flags_before = ctx.flags;
